@@ -26,23 +26,28 @@ VARIABLE g
 ----------------------------------------------------------------------------
 \* the carrier meta-models
 
-A(n, c, m, t) == [name |-> n, cont |-> c, many |-> m, typ |-> t]
+A(n, c, m, t)   == [name |-> n, cont |-> c, many |-> m, typ |-> t, alts |-> << >>]
+AO(n, m, alts)  == [name |-> n, cont |-> TRUE, many |-> m, typ |-> "OBJECT", alts |-> alts]
 
-\* C05: recursive containment; single / list, concrete / abstract containment
-\* attributes; single and list references interleaved with them
+\* C05: recursive containment; a single abstract, a list OBJECT-typed (assigned
+\* at several places with different rules), a single concrete and a list
+\* concrete containment attribute; single and list references interleaved with
+\* them.  Class names are prefixes / suffixes of one another on purpose.
 MM5 == [root |-> "Pkg",
         classes |-> <<
           [name |-> "Pkg", named |-> TRUE, attrs |-> <<
              A("one", TRUE, FALSE, "Elem"), A("up", FALSE, FALSE, "Elem"),
-             A("elems", TRUE, TRUE, "Elem"), A("ups", FALSE, TRUE, "Elem") >>],
-          [name |-> "Box", named |-> TRUE, attrs |-> <<
-             A("first", TRUE, FALSE, "Leaf"), A("rest", TRUE, TRUE, "Pkg") >>],
-          [name |-> "Leaf", named |-> TRUE, attrs |-> <<
+             AO("elems", TRUE, <<"Pkg", "PkgSubPkg", "PkgLeaf">>), A("ups", FALSE, TRUE, "Elem") >>],
+          [name |-> "PkgSubPkg", named |-> TRUE, attrs |-> <<
+             A("first", TRUE, FALSE, "PkgLeaf"), A("rest", TRUE, TRUE, "Pkg") >>],
+          [name |-> "PkgLeaf", named |-> TRUE, attrs |-> <<
              A("to", FALSE, FALSE, "Elem") >>] >>,
-        abstracts |-> << [name |-> "Elem", subs |-> <<"Pkg", "Box", "Leaf">>] >>]
+        abstracts |-> << [name |-> "Elem", subs |-> <<"Pkg", "PkgSubPkg", "PkgLeaf">>] >>]
 
-\* C07: abstract base with two subclasses, an unrelated class, reference
-\* holders with single / list attributes and abstract / concrete targets
+\* C07: abstract Base with two subclasses, an unrelated class; Any / Alt put
+\* Sub2 under two abstract rules (diamond) and refer to each other (cycle), with
+\* Other listed after both; reference holders with single / list attributes
+\* and concrete / abstract / diamond targets
 MM7 == [root |-> "Model",
         classes |-> <<
           [name |-> "Model", named |-> FALSE, attrs |-> << A("elems", TRUE, TRUE, "Elem") >>],
@@ -51,11 +56,13 @@ MM7 == [root |-> "Model",
           [name |-> "Other", named |-> TRUE, attrs |-> << >>],
           [name |-> "Use", named |-> FALSE, attrs |-> <<
              A("rb", FALSE, FALSE, "Base"), A("r1", FALSE, FALSE, "Sub1"),
-             A("r2", FALSE, FALSE, "Sub2"), A("ro", FALSE, FALSE, "Other") >>],
+             A("ro", FALSE, FALSE, "Other"), A("ra", FALSE, FALSE, "Any") >>],
           [name |-> "Refs", named |-> FALSE, attrs |-> <<
-             A("lb", FALSE, TRUE, "Base"), A("l1", FALSE, TRUE, "Sub1") >>] >>,
+             A("lb", FALSE, TRUE, "Base"), A("la", FALSE, TRUE, "Any") >>] >>,
         abstracts |-> << [name |-> "Elem", subs |-> <<"Base", "Other", "Use", "Refs">>],
-                         [name |-> "Base", subs |-> <<"Sub1", "Sub2">>] >>]
+                         [name |-> "Base", subs |-> <<"Sub1", "Sub2">>],
+                         [name |-> "Any",  subs |-> <<"Base", "Alt">>],
+                         [name |-> "Alt",  subs |-> <<"Any", "Sub2", "Other">>] >>]
 
 \* MM7 without nesting (Sub2 has no contents): the flat part of the C07 universe
 MM7F == [MM7 EXCEPT !.classes[3].attrs = << >>]
@@ -123,7 +130,7 @@ AddNode(p, i, c, nm) ==
   IN /\ N < MaxN
      /\ \A j \in (i + 1)..Len(g.kids[p]) : g.kids[p][j].e = << >>
      /\ (at.many \/ el = << >>)
-     /\ c \in ConcreteOf(at.typ)
+     /\ c \in Allowed(at)
      /\ (nm # "" => NamedCount < MaxNamed)
      /\ (nm = "" => UnnamedCount < MaxUnnamed)
      /\ (Sorted /\ el # << >> =>
@@ -148,7 +155,7 @@ Init == g \in { LET c == MM.root IN
 
 Next ==
   \/ \E p \in RightPath : \E i \in 1..Len(g.kids[p]) :
-       \E c \in ConcreteOf(ContAttrs(g.cls[p])[i].typ) : \E nm \in NamesFor(c, N + 1) :
+       \E c \in Allowed(ContAttrs(g.cls[p])[i]) : \E nm \in NamesFor(c, N + 1) :
          AddNode(p, i, c, nm)
   \/ \E o \in Objs(g) : \E i \in 1..Len(g.refs[o]) : \E nm \in RefNamesFor(o) : AddRef(o, i, nm)
 
@@ -217,14 +224,15 @@ TargetRules == ClassNames \cup AbstractNames
 QueryNames  == Range(Names) \cup {"z"}
 
 TConforms ==   \* (N >= 1 only makes this a state predicate, so that TLC reports it like the others)
-  N >= 1 => \A c \in ClassNames : \A t \in TargetRules : Conforms(c, t) <=> c \in Below(t, 8)
+  N >= 1 => \A c \in ClassNames : \A t \in TargetRules : Conforms(c, t) <=> c \in Below(t, Fuel)
 
 \* the four outcomes of default resolution, stated on the set of candidates
 TPlain ==
   \A nm \in QueryNames : \A t \in TargetRules : \A B \in Builtins :
     LET r  == Plain(g, nm, t, B)
-        M  == {o \in Objs(g) : g.name[o] = nm /\ g.cls[o] \in Below(t, 8)}
-        bh == {i \in 1..Len(B) : B[i].name = nm /\ B[i].cls \in Below(t, 8)}
+        bt == Below(t, Fuel)
+        M  == {o \in Objs(g) : g.name[o] = nm /\ g.cls[o] \in bt}
+        bh == {i \in 1..Len(B) : B[i].name = nm /\ B[i].cls \in bt}
     IN /\ r.k \in {"obj", "builtin", "unknown", "notunique"}
        /\ (r.k = "obj" <=> Cardinality(M) = 1)
        /\ (r.k = "obj" => r.v = ToString(CHOOSE o \in M : TRUE))
